@@ -1002,6 +1002,11 @@ func (e *Executor) ExecuteTo(ctx context.Context, version string) (err error) {
 	// If the version we want to migrate to is before a
 	// checkpoint, it will be skipped by Pending.
 	case beforeCk:
+		// The in-memory copy below carries a sum file of its own. Hence, the
+		// directory the files come from is validated before it is replaced.
+		if err := e.ValidateDir(ctx); err != nil {
+			return err
+		}
 		dir, mem := e.dir, &MemDir{}
 		if err := mem.CopyFiles(files[:idx+1]); err != nil {
 			return fmt.Errorf("sql/migrate: copy files to memory: %w", err)
